@@ -21,7 +21,7 @@ EXPLANATION = (
     "use_or_create_param keep an existing attribute, also one whose value is None. " + T.SOUNDNESS)
 NOT_DECIDED = ("operation histories longer than the bound, with several attribute names, or mixing user/behave mode (the masking warnings); "
                "fixture composition helpers beyond the registration order")
-TECHNIQUE = "static analysis: abstract evaluation of Context methods on a frame-stack heap model with fault forks (cleanup order/exactly-once obligations), scope typestate monitors over the run methods, structural end-of-stack and finally rules"
+TECHNIQUE = "static analysis: abstract evaluation of Context methods on a frame-stack heap model with fault forks (cleanup order/exactly-once obligations), scope typestate monitors over the run methods, bounded operation histories (push/pop/set/get/delete/contains) evaluated on constants against a stack-of-dictionaries reference, structural finally rules"
 
 
 def t_ctx(chk, ix):
